@@ -187,7 +187,7 @@ structure NodeFlowInput where
 /-- what the node branch hands to the (edge-level) rest of the constructor: `G_internal`, the flow
 attribute on its edges, `edges_to_ignore_internal = list(set(G_internal.edges_to_ignore +
 [get_expanded_edge(v) for v in elements_to_ignore]))`, the expanded constraints. `.error` = python raises. -/
-def kfdNodeInternal (inp : NodeFlowInput) : Except String FlowInput :=
+def kfdNodeTranslate (inp : NodeFlowInput) : Except String FlowInput :=
   if inp.ng.g.nodes.isEmpty then .error "nonodes" else
   match expandConstraints inp.ng.g inp.constraints with
   | .error e => .error e
@@ -205,6 +205,19 @@ def kfdNodeInternal (inp : NodeFlowInput) : Except String FlowInput :=
             cfg := { k := inp.k, allowEmpty := inp.allowEmpty, constraints := cons,
                      coverage := inp.coverage, coverageLength := inp.coverageLength,
                      lengths := expandLengths inp.ng } }
+
+/-- checks of the edge-level rest of the constructor (the same in both modes):
+`get_max_flow_value_and_check_non_negative_flow` raises "All edges are ignored" when no edge is left to
+explain (fix 1731a87), and `k` must be a positive integer (fix e001a45). Negative values (also a
+`ValueError`) are outside the model. -/
+def kfdEdgeChecks (fi : FlowInput) : Except String FlowInput :=
+  if fi.activeEdges.isEmpty then .error "allignored" else
+  if fi.cfg.k = 0 then .error "k" else .ok fi
+
+def kfdNodeInternal (inp : NodeFlowInput) : Except String FlowInput :=
+  match kfdNodeTranslate inp with
+  | .error e => .error e
+  | .ok fi => kfdEdgeChecks fi
 
 /-- LP of `kFlowDecomp(G, flow_attr_origin="node", …)` -/
 def kfdNodeLP (inp : NodeFlowInput) : Except String LP := (kfdNodeInternal inp).map kfdLP
